@@ -5,6 +5,9 @@ re-read differs, the trace of the current case is only reproducible together wit
 embeds them as case['prior_cases'], and on replay executes them first (from an empty history)."""
 
 
+from .core import Timeout
+
+
 def with_prior(inner, held, changed, depth=1):
     prev = []
 
@@ -16,7 +19,7 @@ def with_prior(inner, held, changed, depth=1):
             for c in prior:
                 try:
                     inner(c)
-                except Exception:
+                except (Exception, Timeout):
                     pass
                 prev.append(c)
             case = {k: v for k, v in case.items() if k != "prior_cases"}
